@@ -579,5 +579,450 @@ def main():
     return 0
 
 
+# ==========================================================================================
+# second output: coq/Gen_C20Net.v -- byte-order helpers (muduo/net/Endian.h) and the places of
+# SocketsOps.cc / InetAddress.cc where a port or an IPv4 address changes byte order or a text
+# form is assembled.  Kept apart from Gen_C20.v so that the calendar sweeps (which depend on
+# Gen_C20.vo) are not re-run when only the address facts change.
+#
+#   Endian.h        hostToNetwork{16,32,64}, networkToHost{16,32,64}: the returned expression
+#                   (after macro expansion glibc's htobeN/beNtoh are __bswap_N or __uintN_identity)
+#   SocketsOps.cc   toIpPort: the initialiser of `port` in the AF_INET6 branch and after it, the
+#                   snprintf formats, the '[' stored first, the family constant tested;
+#                   toIp: the families tested; fromIpPort (both overloads): the value stored in
+#                   sin_port / sin6_port, the family stored, the family handed to inet_pton
+#   InetAddress.cc  InetAddress(port, loopbackOnly, ipv6): the values stored in sin_port,
+#                   sin6_port, sin_addr.s_addr and the families; InetAddress(ip, port, ipv6): the
+#                   character searched by strchr; InetAddress::port(): the returned expression
+#
+# Unsigned values only: an integral cast to a narrower unsigned type is `mod 2^width`.
+
+UWIDTH = {"uint16_t": 16, "__uint16_t": 16, "unsigned short": 16, "in_port_t": 16,
+          "uint32_t": 32, "__uint32_t": 32, "unsigned int": 32, "in_addr_t": 32,
+          "uint64_t": 64, "__uint64_t": 64, "unsigned long": 64}
+
+NET_PRELUDE = """From Coq Require Import ZArith Bool List.
+Import ListNotations.
+Local Open Scope Z_scope.
+
+(* unsigned machine words *)
+Definition wrap_u (w : Z) (x : Z) : Z := x mod 2 ^ w.
+(* glibc <bits/byteswap.h>: __bswap_16/32/64 reverse the bytes of a 16/32/64-bit unsigned value;
+   <bits/uintn-identity.h>: __uintN_identity return their argument *)
+Definition bswap_16 (x : Z) : Z := (x mod 256) * 256 + (x / 256) mod 256.
+Definition bswap_32 (x : Z) : Z := bswap_16 (x mod 65536) * 65536 + bswap_16 ((x / 65536) mod 65536).
+Definition bswap_64 (x : Z) : Z := bswap_32 (x mod 4294967296) * 4294967296 + bswap_32 ((x / 4294967296) mod 4294967296).
+Definition uint_identity (x : Z) : Z := x.
+"""
+
+NET_TWINS = {
+    "Endian_hostToNetwork64": "Definition Endian_hostToNetwork64 (host64 : Z) : Z := (bswap_64 host64).",
+    "Endian_hostToNetwork32": "Definition Endian_hostToNetwork32 (host32 : Z) : Z := (bswap_32 host32).",
+    "Endian_hostToNetwork16": "Definition Endian_hostToNetwork16 (host16 : Z) : Z := (bswap_16 host16).",
+    "Endian_networkToHost64": "Definition Endian_networkToHost64 (net64 : Z) : Z := (bswap_64 net64).",
+    "Endian_networkToHost32": "Definition Endian_networkToHost32 (net32 : Z) : Z := (bswap_32 net32).",
+    "Endian_networkToHost16": "Definition Endian_networkToHost16 (net16 : Z) : Z := (bswap_16 net16).",
+    "SocketsOps_toIpPort_port6": "Definition SocketsOps_toIpPort_port6 (sin6_port : Z) : Z := (Endian_networkToHost16 sin6_port).",
+    "SocketsOps_toIpPort_port4": "Definition SocketsOps_toIpPort_port4 (sin_port : Z) : Z := (Endian_networkToHost16 sin_port).",
+    "SocketsOps_toIpPort_fmt6": "Definition SocketsOps_toIpPort_fmt6 : list Z := [93; 58; 37; 117].",
+    "SocketsOps_toIpPort_fmt4": "Definition SocketsOps_toIpPort_fmt4 : list Z := [58; 37; 117].",
+    "SocketsOps_toIpPort_open6": "Definition SocketsOps_toIpPort_open6 : Z := 91.",
+    "SocketsOps_toIpPort_family6": "Definition SocketsOps_toIpPort_family6 : Z := 10.",
+    "SocketsOps_toIp_family4": "Definition SocketsOps_toIp_family4 : Z := 2.",
+    "SocketsOps_toIp_family6": "Definition SocketsOps_toIp_family6 : Z := 10.",
+    "SocketsOps_fromIpPort4_sin_port": "Definition SocketsOps_fromIpPort4_sin_port (port : Z) : Z := (Endian_hostToNetwork16 port).",
+    "SocketsOps_fromIpPort6_sin6_port": "Definition SocketsOps_fromIpPort6_sin6_port (port : Z) : Z := (Endian_hostToNetwork16 port).",
+    "SocketsOps_fromIpPort4_family": "Definition SocketsOps_fromIpPort4_family : Z := 2.",
+    "SocketsOps_fromIpPort6_family": "Definition SocketsOps_fromIpPort6_family : Z := 10.",
+    "SocketsOps_fromIpPort4_pton_family": "Definition SocketsOps_fromIpPort4_pton_family : Z := 2.",
+    "SocketsOps_fromIpPort6_pton_family": "Definition SocketsOps_fromIpPort6_pton_family : Z := 10.",
+    "InetAddress_ctor_sin_port": "Definition InetAddress_ctor_sin_port (portArg : Z) : Z := (Endian_hostToNetwork16 portArg).",
+    "InetAddress_ctor_sin6_port": "Definition InetAddress_ctor_sin6_port (portArg : Z) : Z := (Endian_hostToNetwork16 portArg).",
+    "InetAddress_ctor_s_addr": "Definition InetAddress_ctor_s_addr (loopbackOnly : bool) : Z := (Endian_hostToNetwork32 (if loopbackOnly then 2130706433 else 0)).",
+    "InetAddress_ctor_family4": "Definition InetAddress_ctor_family4 : Z := 2.",
+    "InetAddress_ctor_family6": "Definition InetAddress_ctor_family6 : Z := 10.",
+    "InetAddress_ipv6_marker": "Definition InetAddress_ipv6_marker : Z := 58.",
+    "InetAddress_port": "Definition InetAddress_port (portNetEndian : Z) : Z := (Endian_networkToHost16 portNetEndian).",
+}
+
+
+def uw(qt):
+    qt = qt.replace("const ", "").strip()
+    return UWIDTH.get(qt)
+
+
+class NetTr:
+    """unsigned integer expressions: parameters / named fields, calls to the byte-order helpers,
+    glibc's __bswap_N / __uintN_identity, integer literals, ?: on a bool parameter, named constants"""
+
+    def __init__(self, vars_, consts=None, boolvars=()):
+        self.vars = vars_            # C++ name (variable, field or accessor) -> Gallina variable
+        self.consts = consts or {}   # C++ constant name -> int
+        self.boolvars = set(boolvars)
+
+    def expr(self, n):
+        k = n.get("kind")
+        qt = n.get("type", {}).get("qualType", "")
+        ks = kids(n)
+        if k in ("ParenExpr", "ExprWithCleanups", "MaterializeTemporaryExpr", "ConstantExpr"):
+            return self.expr(ks[0])
+        if k in ("ImplicitCastExpr", "CStyleCastExpr", "CXXStaticCastExpr", "CXXFunctionalCastExpr"):
+            inner = self.expr(ks[0])
+            ck = n.get("castKind")
+            if ck in ("LValueToRValue", "NoOp"):
+                return inner
+            if ck == "IntegralCast":
+                sw, dw = uw(ks[0].get("type", {}).get("qualType", "")), uw(qt)
+                lit = cxxast.strip(ks[0])
+                if dw and lit.get("kind") == "IntegerLiteral" and 0 <= int(lit["value"]) < 2 ** dw:
+                    return inner
+                if sw and dw:
+                    return inner if dw >= sw else "(wrap_u %d %s)" % (dw, inner)
+                raise Untranslatable("integral cast %s -> %s" % (ks[0].get("type", {}).get("qualType"), qt))
+            raise Untranslatable("cast kind %s" % ck)
+        if k == "IntegerLiteral":
+            return str(int(n["value"]))
+        if k == "DeclRefExpr":
+            nm = n.get("referencedDecl", {}).get("name")
+            if nm in self.vars:
+                return self.vars[nm]
+            if nm in self.consts:
+                return str(self.consts[nm])
+            raise Untranslatable("unknown name %s" % nm)
+        if k == "MemberExpr":
+            if n.get("name") in self.vars:
+                return self.vars[n["name"]]
+            raise Untranslatable("member %s" % n.get("name"))
+        if k == "CXXMemberCallExpr":
+            me = ks[0]
+            if me.get("name") in self.vars and len(ks) == 1:
+                return self.vars[me["name"]]
+            raise Untranslatable("member call %s" % me.get("name"))
+        if k == "ConditionalOperator":
+            c = cxxast.strip(ks[0])
+            cn = c.get("referencedDecl", {}).get("name")
+            if c.get("kind") == "DeclRefExpr" and cn in self.boolvars:
+                return "(if %s then %s else %s)" % (cn, self.expr(ks[1]), self.expr(ks[2]))
+            raise Untranslatable("condition of ?:")
+        if k == "CallExpr":
+            callee = cxxast.strip(ks[0])
+            nm = callee.get("referencedDecl", {}).get("name")
+            args = [self.expr(x) for x in ks[1:]]
+            m = re.match(r"__bswap_(16|32|64)$", nm or "")
+            if m and len(args) == 1:
+                return "(bswap_%s %s)" % (m.group(1), args[0])
+            if re.match(r"__uint(16|32|64)_identity$", nm or "") and len(args) == 1:
+                return "(uint_identity %s)" % args[0]
+            if nm in ("hostToNetwork16", "hostToNetwork32", "hostToNetwork64",
+                      "networkToHost16", "networkToHost32", "networkToHost64") and len(args) == 1:
+                return "(Endian_%s %s)" % (nm, args[0])
+            raise Untranslatable("call to %s" % nm)
+        raise Untranslatable("expression kind %s" % k)
+
+
+def fn_candidates(relfile, qualname, kinds=("FunctionDecl", "CXXMethodDecl", "CXXConstructorDecl")):
+    short = qualname.split("::")[-1]
+    out = []
+    for d in cxxast.dump(relfile, qualname):
+        for n in cxxast.walk(d):
+            if n.get("kind") in kinds and n.get("name") == short and \
+               any(isinstance(c, dict) and c.get("kind") == "CompoundStmt" for c in n.get("inner", [])):
+                out.append(n)
+    return out
+
+
+def stmts_of(n):
+    return kids(n) if n.get("kind") == "CompoundStmt" else [n]
+
+
+def assigned(stmts, field):
+    """RHS nodes of `x.field = e` / `p->field = e` among the statements (not descending into nested ifs)"""
+    out = []
+    for s in stmts:
+        if s.get("kind") == "BinaryOperator" and s.get("opcode") == "=":
+            l, r = kids(s)
+            if l.get("kind") == "MemberExpr" and l.get("name") == field:
+                out.append(r)
+    return out
+
+
+def main_net():
+    out = ["(* GENERATED by lib/gen_C20.py (main_net) from the current muduo sources (VERIF_REPO) -- do not edit *)", NET_PRELUDE]
+    fallbacks = []
+
+    def emit(name, thunk):
+        try:
+            txt, src = thunk()
+            src = " ".join(src.split()).replace("*)", "* )").replace("(*", "( *")
+            out.append("(* %s *)\n%s\n" % (src, txt))
+        except Exception as e:  # noqa
+            fallbacks.append("%s: %s" % (name, e))
+            out.append("(* FALLBACK %s: %s *)\n%s\n" % (name, str(e).replace("*)", ""), NET_TWINS[name]))
+
+    def one(xs, what):
+        if len(xs) != 1:
+            raise Untranslatable("%s: %d matches" % (what, len(xs)))
+        return xs[0]
+
+    # ---- Endian.h
+    for f in ("hostToNetwork64", "hostToNetwork32", "hostToNetwork16", "networkToHost64", "networkToHost32", "networkToHost16"):
+        def th(f=f):
+            fn = cxxast.function_decl("muduo/net/Endian.h", "muduo::net::sockets::" + f)
+            ps = [p for p in kids(fn) if p.get("kind") == "ParmVarDecl"]
+            p = one(ps, "parameters")
+            w = uw(p.get("type", {}).get("qualType", ""))
+            rw = uw(fn.get("type", {}).get("qualType", "").split("(")[0])
+            if not w or not rw:
+                raise Untranslatable("parameter / result type")
+            st = kids(cxxast.body(fn))
+            r = one([s for s in st if s.get("kind") == "ReturnStmt"], "return")
+            if len(st) != 1:
+                raise Untranslatable("more than a return statement")
+            e = kids(r)[0]
+            t = NetTr({p["name"]: ident(p["name"])}).expr(e)
+            ew = uw(e.get("type", {}).get("qualType", ""))
+            if ew and ew > rw:
+                t = "(wrap_u %d %s)" % (rw, t)
+            return ("Definition Endian_%s (%s : Z) : Z := %s." % (f, ident(p["name"]), t),
+                    "muduo/net/Endian.h: " + cxxast.src_text(fn, "muduo/net/Endian.h"))
+        emit("Endian_" + f, th)
+
+    # ---- SocketsOps.cc toIpPort
+    SO = "muduo/net/SocketsOps.cc"
+    state = {}
+
+    def toipport():
+        if "fn" not in state:
+            fn = one(fn_candidates(SO, "muduo::net::sockets::toIpPort"), "toIpPort")
+            top = kids(cxxast.body(fn))
+            ifs = one([s for s in top if s.get("kind") == "IfStmt"], "if statements of toIpPort")
+            cond, then = kids(ifs)[0], kids(ifs)[1]
+            state.update(fn=fn, top=top, cond=cond, then=stmts_of(then))
+        return state
+
+    def port_init(stmts, field, gname):
+        vs = []
+        for s in stmts:
+            if s.get("kind") == "DeclStmt":
+                vs += [v for v in kids(s) if v.get("kind") == "VarDecl" and v.get("name") == "port"]
+        v = one(vs, "declaration of port")
+        t = NetTr({field: field}).expr(kids(v)[0])
+        if uw(v.get("type", {}).get("qualType", "")) != 16:
+            raise Untranslatable("port is not uint16_t")
+        return "Definition %s (%s : Z) : Z := %s." % (gname, field, t), SO + ": " + cxxast.src_text(v, SO)
+
+    def fmt_of(stmts, gname):
+        calls = [s for s in stmts if s.get("kind") == "CallExpr" and
+                 cxxast.strip(kids(s)[0]).get("referencedDecl", {}).get("name") == "snprintf"]
+        c = one(calls, "snprintf calls")
+        a = kids(c)
+        if len(a) != 5:
+            raise Untranslatable("snprintf with %d arguments" % (len(a) - 1))
+        lit = cxxast.strip(a[3])
+        if lit.get("kind") != "StringLiteral":
+            raise Untranslatable("format is not a literal")
+        arg = cxxast.strip(a[4])
+        if arg.get("referencedDecl", {}).get("name") != "port":
+            raise Untranslatable("snprintf argument is not port")
+        val = json_string(lit["value"])
+        return ("Definition %s : list Z := [%s]." % (gname, "; ".join(str(ord(ch)) for ch in val)),
+                SO + ": " + cxxast.src_text(c, SO))
+
+    emit("SocketsOps_toIpPort_port6", lambda: port_init(toipport()["then"], "sin6_port", "SocketsOps_toIpPort_port6"))
+    emit("SocketsOps_toIpPort_port4", lambda: port_init(toipport()["top"], "sin_port", "SocketsOps_toIpPort_port4"))
+    emit("SocketsOps_toIpPort_fmt6", lambda: fmt_of(toipport()["then"], "SocketsOps_toIpPort_fmt6"))
+    emit("SocketsOps_toIpPort_fmt4", lambda: fmt_of(toipport()["top"], "SocketsOps_toIpPort_fmt4"))
+
+    def open6():
+        for s in toipport()["then"]:
+            if s.get("kind") == "BinaryOperator" and s.get("opcode") == "=":
+                l, r = kids(s)
+                if l.get("kind") == "ArraySubscriptExpr":
+                    idx = cxxast.const_eval(kids(l)[1])
+                    if idx == 0:
+                        return ("Definition SocketsOps_toIpPort_open6 : Z := %d." % cxxast.const_eval(r), SO + ": " + cxxast.src_text(s, SO))
+        raise Untranslatable("no buf[0] = <char> in the AF_INET6 branch")
+    emit("SocketsOps_toIpPort_open6", open6)
+
+    def family_test(cond):
+        c = cxxast.strip(cond)
+        if c.get("kind") == "BinaryOperator" and c.get("opcode") == "==":
+            l, r = kids(c)
+            if cxxast.strip(l).get("kind") == "MemberExpr" and cxxast.strip(l).get("name") == "sa_family":
+                return cxxast.const_eval(r)
+        raise Untranslatable("family test")
+    emit("SocketsOps_toIpPort_family6", lambda: ("Definition SocketsOps_toIpPort_family6 : Z := %d." % family_test(toipport()["cond"]),
+                                                  SO + ": if (" + cxxast.src_text(toipport()["cond"], SO) + ")"))
+
+    def toip(which):
+        fn = one(fn_candidates(SO, "muduo::net::sockets::toIp"), "toIp")
+        top = kids(cxxast.body(fn))
+        i1 = one([s for s in top if s.get("kind") == "IfStmt"], "if statements of toIp")
+        ks = kids(i1)
+        fams = [(family_test(ks[0]), ks[1])]
+        if len(ks) == 3 and ks[2].get("kind") == "IfStmt":
+            k2 = kids(ks[2])
+            fams.append((family_test(k2[0]), k2[1]))
+        # which branch calls inet_ntop with which family / field
+        for (fam, blk) in fams:
+            for c in cxxast.find(blk, "CallExpr"):
+                if cxxast.strip(kids(c)[0]).get("referencedDecl", {}).get("name") == "inet_ntop":
+                    af = cxxast.const_eval(kids(c)[1])
+                    fld = [m.get("name") for m in cxxast.find(kids(c)[2], "MemberExpr")]
+                    want = ("sin_addr", 2) if which == 4 else ("sin6_addr", 10)
+                    if af == want[1] and want[0] in fld and fam == af:
+                        return "Definition SocketsOps_toIp_family%d : Z := %d." % (which, fam), SO + ": " + cxxast.src_text(c, SO)
+        raise Untranslatable("no branch printing %s with its own family" % ("sin_addr" if which == 4 else "sin6_addr"))
+    emit("SocketsOps_toIp_family4", lambda: toip(4))
+    emit("SocketsOps_toIp_family6", lambda: toip(6))
+
+    def fromipport(which):
+        want = "sockaddr_in6 *" if which == 6 else "sockaddr_in *"
+        fns = [f for f in fn_candidates(SO, "muduo::net::sockets::fromIpPort")
+               if f.get("type", {}).get("qualType", "").rstrip(")").endswith(want)]
+        fn = one(fns, "fromIpPort overload")
+        return fn, kids(cxxast.body(fn))
+
+    def from_port(which):
+        fn, st = fromipport(which)
+        fld = "sin6_port" if which == 6 else "sin_port"
+        r = one(assigned(st, fld), "assignments to " + fld)
+        t = NetTr({"port": "port"}).expr(r)
+        g = "SocketsOps_fromIpPort%d_%s" % (which, fld)
+        return "Definition %s (port : Z) : Z := %s." % (g, t), SO + ": " + fld + " = " + cxxast.src_text(r, SO)
+
+    def from_family(which):
+        fn, st = fromipport(which)
+        fld = "sin6_family" if which == 6 else "sin_family"
+        r = one(assigned(st, fld), "assignments to " + fld)
+        return "Definition SocketsOps_fromIpPort%d_family : Z := %d." % (which, cxxast.const_eval(r)), SO + ": " + fld + " = " + cxxast.src_text(r, SO)
+
+    def from_pton(which):
+        fn, st = fromipport(which)
+        cs = [c for s in st for c in cxxast.find(s, "CallExpr")
+              if cxxast.strip(kids(c)[0]).get("referencedDecl", {}).get("name") == "inet_pton"]
+        c = one(cs, "inet_pton calls")
+        fld = [m.get("name") for m in cxxast.find(kids(c)[3], "MemberExpr")]
+        if ("sin6_addr" if which == 6 else "sin_addr") not in fld:
+            raise Untranslatable("inet_pton destination")
+        return "Definition SocketsOps_fromIpPort%d_pton_family : Z := %d." % (which, cxxast.const_eval(kids(c)[1])), SO + ": " + cxxast.src_text(c, SO)
+
+    emit("SocketsOps_fromIpPort4_sin_port", lambda: from_port(4))
+    emit("SocketsOps_fromIpPort6_sin6_port", lambda: from_port(6))
+    emit("SocketsOps_fromIpPort4_family", lambda: from_family(4))
+    emit("SocketsOps_fromIpPort6_family", lambda: from_family(6))
+    emit("SocketsOps_fromIpPort4_pton_family", lambda: from_pton(4))
+    emit("SocketsOps_fromIpPort6_pton_family", lambda: from_pton(6))
+
+    # ---- InetAddress.cc
+    IA = "muduo/net/InetAddress.cc"
+
+    def ctor(sig):
+        cs = [c for c in fn_candidates(IA, "muduo::net::InetAddress::InetAddress") if c.get("type", {}).get("qualType", "") == sig]
+        c = one(cs, "constructor " + sig)
+        top = kids(cxxast.body(c))
+        ifs = one([s for s in top if s.get("kind") == "IfStmt"], "if statements of the constructor")
+        ks = kids(ifs)
+        if len(ks) != 3:
+            raise Untranslatable("if without else")
+        return c, ks[0], stmts_of(ks[1]), stmts_of(ks[2])
+
+    def ctor_port():
+        c, cond, then, els = ctor("void (uint16_t, bool, bool)")
+        if cxxast.strip(cond).get("referencedDecl", {}).get("name") != "ipv6":
+            raise Untranslatable("constructor condition is not ipv6")
+        return c, then, els
+
+    def ctor_fact(branch, fld, gname):
+        c, then, els = ctor_port()
+        st = then if branch == 6 else els
+        r = one(assigned(st, fld), "assignments to " + fld)
+        t = NetTr({"portArg": "portArg"}).expr(r)
+        return "Definition %s (portArg : Z) : Z := %s." % (gname, t), IA + ": " + fld + " = " + cxxast.src_text(r, IA)
+
+    def ctor_family(branch, fld, gname):
+        c, then, els = ctor_port()
+        r = one(assigned(then if branch == 6 else els, fld), "assignments to " + fld)
+        return "Definition %s : Z := %d." % (gname, cxxast.const_eval(r)), IA + ": " + fld + " = " + cxxast.src_text(r, IA)
+
+    def ctor_s_addr():
+        c, then, els = ctor_port()
+        consts = {}
+        for nm in ("kInaddrAny", "kInaddrLoopback"):
+            consts[nm] = cxxast.var_const(IA, nm, {"INADDR_ANY": 0, "INADDR_LOOPBACK": 0x7f000001})[0] % 2 ** 32
+        r = one(assigned(els, "s_addr"), "assignments to s_addr")
+        ipdecl = None
+        for s in els:
+            if s.get("kind") == "DeclStmt":
+                for v in kids(s):
+                    if v.get("kind") == "VarDecl" and v.get("name") == "ip":
+                        ipdecl = v
+        if ipdecl is None:
+            raise Untranslatable("no local ip")
+        ipt = NetTr({}, consts, boolvars=("loopbackOnly",)).expr(kids(ipdecl)[0])
+        t = NetTr({"ip": ipt}, consts).expr(r)
+        return ("Definition InetAddress_ctor_s_addr (loopbackOnly : bool) : Z := %s." % t,
+                IA + ": " + cxxast.src_text(ipdecl, IA) + "; s_addr = " + cxxast.src_text(r, IA) +
+                "  [kInaddrAny = %d, kInaddrLoopback = %d]" % (consts["kInaddrAny"], consts["kInaddrLoopback"]))
+
+    emit("InetAddress_ctor_sin_port", lambda: ctor_fact(4, "sin_port", "InetAddress_ctor_sin_port"))
+    emit("InetAddress_ctor_sin6_port", lambda: ctor_fact(6, "sin6_port", "InetAddress_ctor_sin6_port"))
+    emit("InetAddress_ctor_s_addr", ctor_s_addr)
+    emit("InetAddress_ctor_family4", lambda: ctor_family(4, "sin_family", "InetAddress_ctor_family4"))
+    emit("InetAddress_ctor_family6", lambda: ctor_family(6, "sin6_family", "InetAddress_ctor_family6"))
+
+    def marker():
+        c, cond, then, els = ctor("void (muduo::StringArg, uint16_t, bool)")
+        cn = cxxast.strip(cond)
+        if cn.get("kind") != "BinaryOperator" or cn.get("opcode") != "||":
+            raise Untranslatable("condition is not ipv6 || strchr(...)")
+        l, r = kids(cn)
+        if cxxast.strip(l).get("referencedDecl", {}).get("name") != "ipv6":
+            raise Untranslatable("left operand is not ipv6")
+        call = cxxast.strip(r)
+        while call.get("kind") == "ImplicitCastExpr":
+            call = kids(call)[0]
+        if call.get("kind") != "CallExpr" or cxxast.strip(kids(call)[0]).get("referencedDecl", {}).get("name") != "strchr":
+            raise Untranslatable("right operand is not strchr(...)")
+        # the branch taken must be the sockaddr_in6 one
+        f6 = [x for s in then for x in cxxast.find(s, "MemberExpr") if x.get("name") == "addr6_"]
+        f4 = [x for s in els for x in cxxast.find(s, "MemberExpr") if x.get("name") == "addr_"]
+        if not f6 or not f4:
+            raise Untranslatable("branches do not fill addr6_ / addr_")
+        return "Definition InetAddress_ipv6_marker : Z := %d." % cxxast.const_eval(kids(call)[2]), IA + ": if (" + cxxast.src_text(cond, IA) + ")"
+    emit("InetAddress_ipv6_marker", marker)
+
+    def port_fn():
+        fn = one(fn_candidates(IA, "muduo::net::InetAddress::port"), "InetAddress::port")
+        st = kids(cxxast.body(fn))
+        r = one([s for s in st if s.get("kind") == "ReturnStmt"], "return")
+        if len(st) != 1:
+            raise Untranslatable("more than a return statement")
+        t = NetTr({"portNetEndian": "portNetEndian"}).expr(kids(r)[0])
+        return "Definition InetAddress_port (portNetEndian : Z) : Z := %s." % t, IA + ": " + cxxast.src_text(fn, IA)
+    emit("InetAddress_port", port_fn)
+
+    txt = "\n".join(out) + "\n"
+    path = os.path.join(cxxast.ROOT, "coq/Gen_C20Net.v")
+    old = open(path).read() if os.path.exists(path) else None
+    if old != txt:
+        open(path, "w").write(txt)
+    for f in fallbacks:
+        print("FALLBACK", f)
+    return 0
+
+
+def json_string(v):
+    """clang prints a StringLiteral's value as a quoted C string"""
+    if len(v) >= 2 and v[0] == '"' and v[-1] == '"':
+        body = v[1:-1]
+        if "\\" in body:
+            raise Untranslatable("escape in format string")
+        return body
+    raise Untranslatable("string literal value")
+
+
 if __name__ == "__main__":
-    sys.exit(main())
+    rc = main()
+    rc2 = main_net()
+    sys.exit(rc or rc2)
